@@ -45,6 +45,17 @@ CHECKS.update({
    text="Close (half-close, receive error) after any message, a failed write of any response (incl. multi-operation requests, whose one straggling operation is modelled), and Get streams whose consumer fails after k responses; after every such fault the specification requires unchanged RIB and election state and the server must keep answering: a step that does not complete within the watchdog is reported with the blocked goroutine frames.",
    note="in-process streams (no real transport); a hang is confirmed by a goroutine dump showing the frame blocked inside gribigo"),
 })
+CHECKS.update({
+ "C15": dict(ref="DESIGN.md 5/C15", engine="GribiReconcile",
+   text="GribiReconcile defines the plan (add/replace/delete sets per table, over the union of network instances) from the package documentation; TLC checks on all pairs of RIBs built by bounded operation sequences (continuing from the target or from scratch, with target-only instances) that applying the plan through the GribiRIB actions in the documented order acknowledges every operation at once and converges; on the real code pairs of real RIBs are built, the real reconciler's operation sets are compared with the plan (as sets, ids base+1..base+n), applied to the real target in the documented order under RIB trace validation, and the result compared with the intended RIB.",
+   note="next-hop payloads with boolean leaves are excluded (known finding getBoolLeafDropped); local RIB targets only (the remote target wraps the same code over gRPC)"),
+ "C17": dict(ref="DESIGN.md 5/C17", engine="GribiChk",
+   text="GribiChk is the direct specification of each helper's verdict; TLC enumerates the bounded input space (GribiChk_MC: result lists, wants, option combinations, Get responses, error values, statuses) and every enumerated case plus seeded cases over larger domains (near-miss wants) is executed on the real helper with a capturing testing.TB; TLC compares each observed verdict with the specification; for the cached checker the specification is the property's relation (never passes where the plain one fails; equal when keys are unique).",
+   note="a fatal failure and a non-fatal t.Error are both counted as failure; trusted: TLC, the capturing TB"),
+ "C18": dict(ref="DESIGN.md 5/C18", engine="GribiFluent",
+   text="GribiFluent models every With*/Add* method as an update of a flat field map and the queueing calls as snapshots; TLC checks QueuedImmutable, IdsFromOne, StampedWhenElected on all programs of bounded length and emits programs; each program (TLC-emitted and seeded random over every method) runs on the real fluent API with a recording stub stream; EntryProto() of every queued builder and the complete sequence of ModifyRequests that reached the stream (generic protoreflect flattening, independent of fluent) are compared with the specification.",
+   note="encap headers are exercised through two composite calls (MPLS labels, UDPv6 with all fields); values are drawn from small sets"),
+})
 CHECKS["C08"]["text"] = CHECKS["C08"]["text"].replace("The election gate of the Flush RPC is decided by the server-level specification (see DESIGN).", "Server part (FlushGate): the complete decision table of network-instance and election fields against the learnt election id is part of GribiServer.FlushVerdict; every Flush RPC's status/reason and effect are compared on the real server.")
 CHECKS["C08"]["note"] = "trusted: TLC, hooks; bounded constants"
 CHECKS["C08"]["engine"] = "GribiRIB+GribiServer"
@@ -85,6 +96,9 @@ def main():
         "engines": [
             {"name": "GribiRIB", "path": "/verif/spec/GribiRIB.tla", "serves_properties": ["C01", "C02", "C03", "C08", "C12", "C16"],
              "kind_free_text": "TLA+ spec of rib/rib.go; GribiRIB_MC (bounded instance, input emission), GribiRIBTrace (trace validation); Go harness /verif/harness (vh rib-run)"},
+            {"name": "GribiReconcile", "path": "/verif/spec/GribiReconcile.tla", "serves_properties": ["C15"], "kind_free_text": "plan specification + GribiReconcile_MC + GribiReconcileTrace; vh recon-run"},
+            {"name": "GribiChk", "path": "/verif/spec/GribiChk.tla", "serves_properties": ["C17"], "kind_free_text": "verdict specification + GribiChk_MC (case enumeration) + GribiChkTrace; vh chk-run"},
+            {"name": "GribiFluent", "path": "/verif/spec/GribiFluent.tla", "serves_properties": ["C18"], "kind_free_text": "builder/queue specification + GribiFluent_MC (program generation) + GribiFluentTrace; vh fluent-run"},
             {"name": "GribiServer", "path": "/verif/spec/GribiServer.tla", "serves_properties": ["C04", "C05", "C06", "C07", "C08", "C09", "C10", "C12"],
              "kind_free_text": "TLA+ spec of server/server.go at message grain on top of GribiRIB; GribiServer_MC, GribiServerTrace; Go harness (vh srv-run) driving server.Server through in-process streams"},
         ],
